@@ -139,6 +139,9 @@ class FuncRun(FunctionEngine):
             if o.kind == 'normal':
                 from .engine import Outcome
                 o = Outcome('return', val=self.const(None))   # never mutate the shared NORMAL outcome
+                self._seg_end = bool(c.get('stop_before'))      # falling off a segment: `result` is None, not coerced
+            else:
+                self._seg_end = False
             if o.kind in ('break', 'continue'):
                 raise Unsupported('break/continue outside loop')
             if o.kind == 'return':
@@ -150,7 +153,7 @@ class FuncRun(FunctionEngine):
 
     def result_value(self, cur, val):
         c = self.contract
-        if c.get('returns'):
+        if c.get('returns') and not getattr(self, '_seg_end', False):
             t = parse_type(c['returns'])
             val = self.materialize_empty(val, t, cur) if t.is_container else val
             cv = self.coerce(val, t, cur, 'return value')
